@@ -11,8 +11,13 @@ from ..client.dap import DapClient
 from ..client.lsp import LspServer
 
 SRC = '.test "a" {\n    lda #1\n    ldx #3\nl:\n    dex\n    bne l\n    nop\nforever:\n    jmp forever\n    brk\n}\n'
-STATES = ["no-debugger", "attached-idle", "launched-not-started", "stopped-at-breakpoint", "running", "paused", "debugger-disconnected-again"]
-ORDERS = ["shutdown-exit", "disconnect-then-shutdown", "shutdown-then-disconnect", "stdin-eof", "exit-without-shutdown-response-wait"]
+# a call that takes a while to return (20 x 65536 inner iterations): `next` over it keeps the debug session busy
+SRC_LONG = ('.test "a" {\n    lda #20\n    jsr delay\n    nop\nforever:\n    jmp forever\ndelay:\n    sta $90\nd0:\n    ldx #0\nd1:\n    ldy #0\nd2:\n    dey\n'
+            '    bne d2\n    dex\n    bne d1\n    dec $90\n    bne d0\n    rts\n}\n')
+STATES = ["no-debugger", "attached-idle", "launched-not-started", "stopped-at-breakpoint", "running", "paused", "debugger-disconnected-again",
+          "next-over-long-call"]
+ORDERS = ["shutdown-exit", "disconnect-then-shutdown", "shutdown-then-disconnect", "stdin-eof", "exit-without-shutdown-response-wait",
+          "stdout-closed-then-stdin-eof"]
 
 
 def threads_state(pid):
@@ -47,11 +52,12 @@ def scenario(state, order, sched_seed, watchdog):
     try:
         open(os.path.join(d, "mos.toml"), "w").write("")
         path = os.path.join(d, "main.asm")
-        open(path, "w").write(SRC)
+        src = SRC_LONG if state == "next-over-long-call" else SRC
+        open(path, "w").write(src)
         srv = LspServer(d, env=env)
         if "result" not in srv.initialize():
             return dict(obs, verdict="inconclusive", why="initialize failed: %s" % srv.stderr[-200:])
-        srv.did_open(path, SRC)
+        srv.did_open(path, src)
         srv.barrier()
         if state != "no-debugger":
             dap = DapClient(srv.port)
@@ -62,12 +68,18 @@ def scenario(state, order, sched_seed, watchdog):
                     return dict(obs, verdict="inconclusive", why="launch failed: %r" % (r,))
                 if state in ("stopped-at-breakpoint", "debugger-disconnected-again"):
                     dap.request("setBreakpoints", {"source": {"path": path}, "breakpoints": [{"line": 5}]})
+                if state == "next-over-long-call":
+                    dap.request("setBreakpoints", {"source": {"path": path}, "breakpoints": [{"line": 3}]})
                 if state != "launched-not-started":
                     dap.request("configurationDone", None)
-                    if state in ("stopped-at-breakpoint", "debugger-disconnected-again"):
+                    if state in ("stopped-at-breakpoint", "debugger-disconnected-again", "next-over-long-call"):
                         i, e = dap.wait_event("stopped", 0, 10)
                         if e is None:
                             return dict(obs, verdict="inconclusive", why="never stopped")
+                        if state == "next-over-long-call":
+                            # the session thread is busy stepping over the call when the shutdown arrives
+                            dap.send("next", {"threadId": 1})
+                            time.sleep(0.05)
                     elif state == "paused":
                         time.sleep(0.05)
                         dap.request("pause", {"threadId": 1})
@@ -86,6 +98,26 @@ def scenario(state, order, sched_seed, watchdog):
             dap = None
         if order == "stdin-eof":
             srv.p.stdin.close()
+        elif order == "stdout-closed-then-stdin-eof":
+            # the client goes away while the server still has something to say to it: the server's writes fail
+            # (the reader thread is blocked in a read on that pipe, so the file object cannot be closed; the descriptor is
+            # replaced by /dev/null instead, which drops this process' reference to the read end without freeing the descriptor
+            # number for reuse by another thread. The pending read ends with the next thing the server writes.)
+            try:
+                nul = os.open(os.devnull, os.O_RDONLY)
+                os.dup2(nul, srv.p.stdout.fileno())
+                os.close(nul)
+            except OSError:
+                pass
+            for k in range(3):
+                try:
+                    srv.notify("textDocument/didOpen", {"textDocument": {"uri": "file://%s/extra%d.asm" % (d, k), "languageId": "asm", "version": 1, "text": "lda undefined%d\n" % k}})
+                except Exception:
+                    break
+            try:
+                srv.p.stdin.close()
+            except Exception:
+                pass
         elif order == "exit-without-shutdown-response-wait":
             srv.send({"jsonrpc": "2.0", "id": 9999, "method": "shutdown", "params": None})
             srv.notify("exit", None)
@@ -117,7 +149,9 @@ def scenario(state, order, sched_seed, watchdog):
                 obs["why"] = "still consuming CPU after the watchdog"
             return obs
         obs["port_still_listening"] = port_listening(srv.port)
-        obs["verdict"] = "ok" if rc == 0 and not obs["port_still_listening"] else "bad-exit"
+        # (a server whose client has disappeared may report that with a non-zero status: it only has to end)
+        status_ok = rc == 0 or order == "stdout-closed-then-stdin-eof"
+        obs["verdict"] = "ok" if status_ok and not obs["port_still_listening"] else "bad-exit"
         if os.path.exists(trace):
             obs["trace_points"] = sorted({l.split()[3] for l in open(trace) if len(l.split()) > 3})
         return obs
@@ -169,7 +203,8 @@ def main(tier, seed):
         "C20", tier, seed, acc, t0,
         rule="every combination of session state {no debugger, attached idle, launched but not started, stopped at a breakpoint, running "
              "(endless loop), paused, debugger disconnected again} x shutdown order {shutdown+exit, DAP disconnect then shutdown, shutdown "
-             "then disconnect, stdin closed without shutdown, shutdown+exit without waiting for the response} against a real `mos lsp` "
+             "then disconnect, stdin closed without shutdown, shutdown+exit without waiting for the response, the client's stdout end closed while "
+             "notifications are in flight followed by stdin EOF}, plus the state `next` stepping over a long-running call, against a real `mos lsp` "
              "process with seeded H2 schedule perturbation; quick repeats every combination 8 times, thorough 120 times. The process must exit with "
              "status 0 and nothing may listen on the debug port afterwards; a process that is still there after the 10 s watchdog is "
              "judged by two /proc samples (all threads sleeping, no CPU progress = hung; otherwise inconclusive). Non-trivial = distinct "
